@@ -284,6 +284,12 @@ class Reader:
         """
         if not self.is_open:
             raise IOError("Reader not open; call `open` before `read`")
+        if self.is_mtscomp and isinstance(nsel, slice) and nsel.step is not None and nsel.step < 0:
+            # mtscomp returns nothing for negative steps: read the same samples forward and flip them
+            ind = range(*nsel.indices(self.ns))
+            nsel = slice(ind[-1], ind[0] + 1, -nsel.step) if len(ind) else slice(0, 0)
+            out = self.read(nsel=nsel, csel=csel, sync=sync)
+            return (out[0][::-1], out[1][::-1]) if sync else out[::-1]
         if hasattr(self, 'raw_channel_order'):
             csel = self.raw_channel_order[csel]
         darray = self._raw[nsel, :].astype(np.float32, copy=True)[..., csel]
